@@ -10,3 +10,7 @@ def register(add):
                  G('md_map_sh256'), G('bn_read_bin'), G('bn_rsh'), G('bn_mul_comba'), G('bn_mod_basic'), G('ep_mul_sim_gen'), G('fp_prime_back'), G('dv_cmp_sec')],
         timeout=600, flags=['--object-bits', '10'], note='every callee is an ABSTRACT contract (frame + recorded verdict); nothing about the arithmetic is assumed or claimed',
         bound_note='loop-free after callee replacement (macro loops of RLC_TRY unwound, unwinding assertions discharged)')
+    add('cp_bls_ver', ['C05'], 'cp_bls_ver', sources=['src/cp/relic_cp_bls.c'], headers=['cp_bls.h', 'cp_bls_state.h'], conf='base', route='proof', unwind=40,
+        decls='ep_st *s; const uint8_t *msg; size_t len; ep2_st *q;', call='cp_bls_ver(s, msg, len, q)', flags=['--object-bits', '10'], timeout=600,
+        replace=[G('ep_map_sswum'), G('ep_copy'), G('ep2_copy'), G('ep2_curve_get_gen'), G('ep2_neg'), G('pp_map_sim_oatep_k12'), G('fp12_cmp_dig'), G('g2_is_valid')],
+        note='every callee is an ABSTRACT contract (frame + recorded verdict)', bound_note='loop-free after callee replacement')
